@@ -83,7 +83,7 @@ def make_pool(rnd, n):
         vars_ = {"amount": ["n", "50000", 0]}
         pool.append((tmpl % (da + rest), vars_))
         pool.append((tmpl % (db + rest), vars_))
-    for text in ["base + fee", "fee * 2", "fee", "rate + quota", "fee(1) + fee", "x = fee; x + fee", "[fee, rate, fee]", "fee + nosuch", "rate = rate + 1; rate", "fee == 3 ? quota : rate"]:
+    for text in ["_", "[_, 1]", "_ ; 2", "x = 5; _", "base + fee", "fee * 2", "fee", "rate + quota", "fee(1) + fee", "x = fee; x + fee", "[fee, rate, fee]", "fee + nosuch", "rate = rate + 1; rate", "fee == 3 ? quota : rate"]:
         pool.append((text, {"base": ["n", "10", 0]}))
     # map literals with repeated keys (after evaluation) among distinct ones, lists of maps: construction order is part of the value
     for text in ["{'a': 1, 'b': 2, 'a': 3, 'c': 4}", "{k: 1, 'x': 2, 'y': 3, 'x': 4}", "{1: 'a', 2: 'b', 1.0: 'c', 3: 'd'}", "[{'p': 1, 'q': 2, 'p': 3}, {'q': 1, 'p': 2, 'q': 3}]",
@@ -368,7 +368,7 @@ def run_shard(desc):
                     steps.append({"op": "parse", "text": pool[pi][0], "keep": cid})
                     plan.append(None)
                     kept[(pi, tuple(regs))] = cid
-                via = "execute" if rnd.random() < 0.3 else ""
+                via = "execute" if (rnd.random() < 0.3 and si != 901) else ""  # history 901: 12000 evaluations through parse + exec only
                 steps.append(dict({"op": "exec", "ctx": cid, "text": pool[pi][0], "want": "ae"}, **({"via": via} if via else {})))
                 plan.append(("seq", pi, list(regs), pos, via))
                 recent.append((cid, len(steps) - 1))
